@@ -183,6 +183,7 @@ pub fn run_to_completion(
             keys: keys[key_pos.min(keys.len())..].to_vec(),
             intrs: vec![],
             max_instr,
+            cycle_replies: false,
         };
         match &plan_left {
             Plan::None => {}
